@@ -137,10 +137,10 @@ class Director:
     def before_step(self, name):
         self.ev_mark = len(self.events)
         self.ready_before = list(self.last_ready)
-        signal.alarm(20)
+        signal.setitimer(signal.ITIMER_VIRTUAL, 4.0)      # CPU time of this process: a step that never yields
 
     def after_step(self, name):
-        signal.alarm(0)
+        signal.setitimer(signal.ITIMER_VIRTUAL, 0)
         self.trace.append(['run', name, self.events[self.ev_mark:], self.ready_before])
 
     def apply(self, action):
@@ -219,14 +219,14 @@ def run_case(case):
 
     def on_alarm(signum, frame):
         raise BusyLoop()
-    signal.signal(signal.SIGALRM, on_alarm)
+    signal.signal(signal.SIGVTALRM, on_alarm)
     try:
         d.main_task = loop.create_task(pipeline.process())
         loop.run_forever()
     except BusyLoop:
         d.terminal = 'busyloop'
     finally:
-        signal.alarm(0)
+        signal.setitimer(signal.ITIMER_VIRTUAL, 0)
     if loop.stuck:
         d.terminal = 'stuck'
     state = {'pstate': pipeline._state.value, 'conc': pipeline._concurrency,
@@ -267,6 +267,8 @@ def enumerate_runs(case, max_runs):
 
 
 def main():
+    import gc
+    gc.disable()            # thousands of loops are kept alive on purpose; no collector pauses inside a timed step
     req = json.load(sys.stdin)
     out = []
     if 'enumerate' in req:
